@@ -356,3 +356,28 @@ def _(v):
         viadict = rsys.rates(c)
         v.prove(label + ".array_path", all(abs(float(g) - float(e)) <= 1e-12 * abs(float(e)) for g, e in zip(got, expect)), detail="%r want %r" % (got, expect))
         v.prove(label + ".dict_path_agrees", all(abs(float(viadict[k]) - float(e)) <= 1e-12 * abs(float(e)) for k, e in zip("ABC", expect)), detail=repr(viadict))
+
+
+@harness("C03", "feed_and_restricted_keys_together", functions=[RS + ":ReactionSystem.rates"], kind="data")
+def _(v):
+    """the two optional arguments of ReactionSystem.rates together: rates asked for a subset of the substances while the feed map names more of
+    them. Every entry that is returned must be the COMPLETE rate of that substance (all reaction contributions plus its feed term); a substance
+    outside the requested subset is either absent (or the call refused), never present with only a part of its rate"""
+    from chempy.chemistry import Reaction, Substance
+    from chempy.reactionsystem import ReactionSystem
+    rsys = ReactionSystem([Reaction({"A": 1}, {"B": 1, "C": 1}, 2), Reaction({"B": 1, "C": 2}, {"A": 1}, 3)], [Substance(k) for k in "ABC"], checks=())
+    c = {"A": 5, "B": 7, "C": 11, "fr": 13, "fA": 17, "fB": 19, "fC": 23}
+    r1, r2 = 2 * 5, 3 * 7 * 11 ** 2
+    full = {"A": -r1 + r2 + 13 * (17 - 5), "B": r1 - r2 + 13 * (19 - 7), "C": r1 - 2 * r2 + 13 * (23 - 11)}
+    got_all = rsys.rates(c, cstr_fr_fc=("fr", {"A": "fA", "B": "fB", "C": "fC"}))
+    v.prove("all_substances", got_all == full, detail=repr(got_all))
+    sub = rsys.rates(c, substance_keys=["A", "B"], cstr_fr_fc=("fr", {"A": "fA", "B": "fB"}))
+    v.prove("subset_with_matching_feed", sub == {k: full[k] for k in "AB"}, detail=repr(sub))
+    partial = rsys.rates(c, cstr_fr_fc=("fr", {"B": "fB"}))
+    v.prove("feed_for_one_substance_only", partial == {"A": -r1 + r2, "B": full["B"], "C": r1 - 2 * r2}, detail=repr(partial))
+    try:
+        more = rsys.rates(c, substance_keys=["A", "B"], cstr_fr_fc=("fr", {"A": "fA", "B": "fB", "C": "fC"}))
+        ok, det = all(more[k] == full[k] for k in more) and set(more) >= {"A", "B"}, repr(more)
+    except KeyError:
+        ok, det = True, "refused"
+    v.prove("feed_map_wider_than_the_requested_keys", ok, detail=det)
